@@ -129,4 +129,37 @@ example :
 /-- non-vacuity of `fresh_writes_keep_exact`: two fresh keys on a state that has database 0 -/
 example : drift ([(b "x", Val.str (b "1")), (b "y", Val.int 2)].foldl (setOne 0) { dbs := [(0, ⟨[], []⟩)], mem := 0 }) = 0 := by decide
 
+/-- createDb never touches the reported figure -/
+theorem createDb_keeps_figure (s : State) (i : Nat) : (s.createDb i).mem = s.mem := by
+  unfold State.createDb; split <;> rfl
+
+/-- **SELECT changes neither the reported figure nor the accounted size** — for every caller, target and state
+    (the target database is created empty if absent: an empty database accounts for nothing) -/
+theorem select_keeps_exact (c : Ctx) (s : State) (d : Nat) :
+    (setConnDb c s d).mem = s.mem ∧ memFn (setConnDb c s d) = memFn s ∧ drift (setConnDb c s d) = drift s := by
+  have h1 : (setConnDb c s d).mem = s.mem := by
+    unfold setConnDb; exact createDb_keeps_figure s d
+  have h2 : memFn (setConnDb c s d) = memFn s := by
+    unfold setConnDb
+    show memFn (s.createDb d) = memFn s
+    exact memFn_createDb s d
+  exact ⟨h1, h2, by unfold drift; rw [h1, h2]⟩
+
+/-- **SWAPDB changes neither the reported figure nor the accounted size** — for every pair of indices and every state -/
+theorem swapdb_keeps_exact (s : State) (d1 d2 : Nat) :
+    (swapDbs s d1 d2).mem = s.mem ∧ memFn (swapDbs s d1 d2) = memFn s ∧ drift (swapDbs s d1 d2) = drift s := by
+  have h1 : (swapDbs s d1 d2).mem = s.mem := by
+    unfold swapDbs
+    split
+    · rfl
+    · show ((s.createDb d1).createDb d2).mem = s.mem
+      rw [createDb_keeps_figure, createDb_keeps_figure]
+  have h2 : memFn (swapDbs s d1 d2) = memFn s := by
+    unfold swapDbs
+    split
+    · rfl
+    · show memFn ((s.createDb d1).createDb d2) = memFn s
+      rw [memFn_createDb, memFn_createDb]
+  exact ⟨h1, h2, by unfold drift; rw [h1, h2]⟩
+
 end Sugar.Props.C19
